@@ -541,6 +541,11 @@ def rp(spec, st, sc):
             cur += u
         r = RS(st.data, start, region_end, st.base)
         return rp(sub, r, sc)
+    if k == "offsettedend":
+        # everything up to `endoffset` (<= 0) bytes before the end of the enclosing stream or region
+        endoff = evaluate(spec[1], sc)
+        n = (st.end + endoff) - st.pos
+        return rp(spec[2], st.region(n), sc)
     if k == "nullstrip":
         start = st.pos
         data = strip_units(st.read_all(), spec[2])
@@ -752,6 +757,14 @@ def rb(spec, v, sc):
         return int_encode(v, n, spec[2], bool(evaluate(spec[3], sc))), v
     if k == "bytes":
         n = evaluate(spec[1], sc)
+        if isinstance(v, int):
+            # documented convenience: an integer is written big-endian, unsigned, in the field's width
+            if n <= 0:
+                raise Reject("non-positive-width")      # (an integer has no encoding in zero bytes)
+            if not 0 <= int(v) < (1 << (8 * n)):
+                raise Reject("out-of-range")
+            data = int(v).to_bytes(n, "big")
+            return data, data
         if not isinstance(v, (bytes, bytearray)):
             raise ForeignError("Bytes built from a non-bytes object")
         if n < 0:
@@ -1091,6 +1104,8 @@ def rb(spec, v, sc):
     if k == "nullterm":
         data, ret = rb(spec[1], v, sc)
         return data + spec[2], ret
+    if k == "offsettedend":
+        return rb(spec[2], v, sc)
     if k == "nullstrip":
         return rb(spec[1], v, sc)
     if k == "bitwise":
